@@ -132,8 +132,266 @@ theorem setCell_cells {s s' : Store} {i : Nat} {c : Cell} (h : Store.setCell s i
     exact ⟨by assumption, rfl, SameFrame.rfl' _⟩
   · simp at h
 
+/-- what one iteration of the reversed walk does: entry `index` at position `top + k` gets the mapping `nw`
+(store `cur2`: after the optional copy; `s2`: after the map entry is written) -/
+structure CStep (off : Nat) (s0 : Array Cell) (s1 : Store) (top hi k : Nat) (cur : Store) (index : Nat)
+    (cur2 : Store) (nw : Nat) (s2 : Store) : Prop where
+  item : cur.cells[top + k]? = some (.cloneItem index)
+  ext : Ext (top + k + 1) cur cur2
+  keep : ∀ j, j < cur.cells.size → cur2.cells[j]? = cur.cells[j]?
+  good : Good off s0 cur2 (top + k + 1) hi index nw
+  /-- the cells the step appends: the copy itself, and cells that are leaves or never nodes -/
+  news : FreshPre s0 s1 top hi → ∀ j, cur.cells.size ≤ j → j < cur2.cells.size →
+    j = nw + off ∨ ∃ d, cur2.cells[j]? = some d ∧ SideCell d
+  other : ∀ j, j ≠ top + k → s2.cells[j]? = cur2.cells[j]?
+  size2 : s2.cells.size = cur2.cells.size
+  frame2 : SameFrame cur2 s2
+  agree2 : AgreeNC cur2.cells s2.cells
+
 /-- one iteration of the reversed walk keeps the invariant; `off = 0` is `clone_data`, for `optimize` the
 offset is applied to every new index because the retention count lies below the index list -/
+theorem cloneLoop_one {off : Nat} {s0 : Array Cell} {s1 : Store} {top hi : Nat} (htop : s0.size ≤ top)
+    (hnl : ListsWF s0) (hcase : off = 0 ∨ s1.retention ≤ hi) (k : Nat) (cur s' : Store)
+    (hinv : CInv off s0 s1 top hi (k + 1) cur)
+    (h : Store.cloneLoop off (s1.start + hi) top (k + 1) cur = .ok s') :
+    ∃ index cur2 nw s2, CStep off s0 s1 top hi k cur index cur2 nw s2 ∧ CInv off s0 s1 top hi k s2 ∧
+      Store.cloneLoop off (s1.start + hi) top k s2 = .ok s' := by
+  simp only [Store.cloneLoop, bind_eq_ok] at h
+  obtain ⟨ci, hgi, h2⟩ := h
+  have hci := get_ok hgi
+  split at h2
+  · rename_i index
+    simp only [bind_eq_ok] at h2
+    obtain ⟨existing, hex, ⟨cur2, nw⟩, h3, s2, hset, hrest⟩ := h2
+    have hstart : cur.start + (top + k) + 1 = cur.start + (top + k + 1) := by omega
+    rw [hstart, ← hinv.start] at hex
+    rw [hstart, ← hinv.start] at h3
+    -- the store after the optional clone, and what the new map entry satisfies
+    have key : Ext (top + k + 1) cur cur2 ∧ (∀ j, j < cur.cells.size → cur2.cells[j]? = cur.cells[j]?) ∧
+        Good off s0 cur2 (top + k + 1) hi index nw ∧
+        (FreshPre s0 s1 top hi → ∀ j, cur.cells.size ≤ j → j < cur2.cells.size → FreshOK off cur2 hi j) ∧
+        (FreshPre s0 s1 top hi → ∀ j, cur.cells.size ≤ j → j < cur2.cells.size →
+          j = nw + off ∨ ∃ d, cur2.cells[j]? = some d ∧ SideCell d) := by
+      cases existing with
+      | some j' =>
+        simp only [pure, Outcome.ok.injEq, Prod.mk.injEq] at h3
+        obtain ⟨hc2, hni⟩ := h3
+        subst hc2; subst hni
+        refine ⟨Ext.refl _ _, fun _ _ => rfl, ?_, fun _ j h1 h2 => by omega, fun _ j h1 h2 => by omega⟩
+        rcases lookupOpt_link hex with ⟨h1, h1'⟩ | ⟨j, h1, h2, hcell⟩
+        · exact Or.inl ⟨h1, h1'⟩
+        · obtain ⟨o, n, hcell', _, hgood⟩ := hinv.done j (by omega) h2
+          rw [hcell] at hcell'
+          simp only [Option.some.injEq, Cell.cloneIndexMap.injEq] at hcell'
+          obtain ⟨ho, hn⟩ := hcell'
+          subst ho; subst hn
+          have hk : top + (k + 1) = top + k + 1 := by omega
+          rw [hk] at hgood
+          exact hgood
+      | none =>
+        simp only [bind_eq_ok] at h3
+        obtain ⟨c, hgc, ⟨cur2', ni'⟩, hclone, h4⟩ := h3
+        have hge := cloneCell_index_ge hclone
+        have hext := cloneCell_ext (top + k + 1) hclone
+        have hni : cur2' = cur2 ∧ nw + off = ni' := by
+          split at h4
+          · rename_i hlt
+            simp only [pure, Outcome.ok.injEq, Prod.mk.injEq] at h4
+            refine ⟨h4.1, ?_⟩
+            rcases hcase with h0 | hr
+            · omega
+            · have e1 := hext.frame.1
+              have e2 := hinv.ret
+              have e3 := hinv.hiLe
+              exfalso
+              have hlt' : ni' < cur2'.retention := hlt
+              omega
+          · split at h4
+            · simp at h4
+            · simp only [pure, Outcome.ok.injEq, Prod.mk.injEq] at h4
+              refine ⟨h4.1, ?_⟩
+              omega
+        obtain ⟨hc2, hni⟩ := hni
+        subst hc2
+        have hkeep : ∀ j, j < cur.cells.size → cur2'.cells[j]? = cur.cells[j]? :=
+          fun j hj => (cloneCell_ext (j + 1) hclone).keep j (by omega) hj
+        have hagc : AgreeNC cur.cells cur2'.cells := by
+          intro j d hj _
+          have hjl : j < cur.cells.size := by
+            rcases Nat.lt_or_ge j cur.cells.size with h | h
+            · exact h
+            · rw [Array.getElem?_eq_none h] at hj; cases hj
+          rw [hkeep j hjl]; exact hj
+        refine ⟨hext, hkeep, Or.inr ⟨ni', by have := hinv.hiLe; omega, hni, ?_⟩, ?_, ?_⟩
+        rotate_left
+        · -- the cells this step appends
+          intro ⟨hkn, hitems⟩ j hj1 hj2
+          have hi_lt' : top + k < hi := by have := hinv.bound; omega
+          obtain ⟨sh, hsh⟩ := hitems (top + k) (by omega) hi_lt' index (by
+            rw [← hinv.pending (top + k) (by omega) hi_lt']; exact hci)
+          obtain ⟨c0, hc0⟩ := shape_cell hsh
+          have hcc : c = c0 := by
+            have := hinv.agree0 index c0 hc0
+            rw [get_ok hgc] at this
+            exact Option.some.inj this
+          subst hcc
+          obtain ⟨sh', g1, g2, g3, g4⟩ := cloneCell_shape_all hinv.agree0 hc0 hsh
+            (fun n k hck => hnl index n k (by rw [hc0, hck])) hclone
+          have hoth := cloneCell_others hinv.agree0 hc0 hsh hclone
+          by_cases hjn : j = ni'
+          · subst hjn
+            obtain ⟨c'', hc''⟩ := shape_cell g1
+            refine ⟨c'', hc'', ?_, Or.inr ⟨sh', g1, ?_⟩⟩
+            · intro n k' hck
+              subst hck
+              have hl1 : sh'.label = .list n k' := by
+                unfold shape at g1; rw [hc''] at g1
+                simp only at g1
+                split at g1
+                · simp only [Option.some.injEq] at g1; rw [← g1]
+                · simp at g1
+              have := label_list hsh (by rw [← g2]; exact hl1)
+              exact hnl index n k' this
+            · intro k' hk'
+              obtain ⟨x, hx, st, hgr, hab⟩ := AllRel.right_mem g4 k' hk'
+              obtain ⟨shx, hshx⟩ := hkn index sh hsh x hx
+              have hxcur : ∃ sh2, shape cur2'.cells x = some sh2 :=
+                ⟨shx, shape_agree hagc (shape_agree (agreeNC_of_all hinv.agree0) hshx)⟩
+              rw [← hgr.start] at hab
+              have hl := lookup_link hab
+              rcases hl with ⟨h1, h2⟩ | ⟨j', h1, h2, h3⟩
+              · subst h1
+                exact Or.inl ⟨by rw [hext.frame.1, ← hgr.ret]; exact h2, hxcur⟩
+              · rw [hgr.keep j' (by have := hinv.hiLe; omega)] at h3
+                obtain ⟨o, n, hcell', _, hgood⟩ := hinv.done j' (by omega) h2
+                rw [h3] at hcell'
+                simp only [Option.some.injEq, Cell.cloneIndexMap.injEq] at hcell'
+                obtain ⟨ho, hn⟩ := hcell'
+                subst ho; subst hn
+                rcases hgood with ⟨e1, e2⟩ | ⟨ni2, e1, e2, e3⟩
+                · subst e1
+                  exact Or.inl ⟨by rw [hext.frame.1]; exact e2, hxcur⟩
+                · obtain ⟨sh2, f1, _, _, _⟩ := e3 shx hshx
+                  have hb := shape_bound f1
+                  exact Or.inr ⟨by omega, by omega, sh2, by rw [e2]; exact shape_agree hagc f1⟩
+          · obtain ⟨d, hd, hside⟩ := hoth j hj1 hj2 hjn
+            refine ⟨d, hd, ?_, ?_⟩
+            · intro n k' hdk
+              subst hdk
+              rcases hside with h | h
+              · simp [neverNode] at h
+              · simp [isLeafCell, soloShape] at h
+            · rcases hside with h | h
+              · exact Or.inl h
+              · exact Or.inr ⟨_, shape_of_solo hd h, fun k' hk' => by simp at hk'⟩
+        · -- the cells this step appends, by kind
+          intro ⟨hkn, hitems⟩ j hj1 hj2
+          have hi_lt' : top + k < hi := by have := hinv.bound; omega
+          obtain ⟨sh, hsh⟩ := hitems (top + k) (by omega) hi_lt' index (by
+            rw [← hinv.pending (top + k) (by omega) hi_lt']; exact hci)
+          obtain ⟨c0, hc0⟩ := shape_cell hsh
+          have hcc : c = c0 := by
+            have := hinv.agree0 index c0 hc0
+            rw [get_ok hgc] at this
+            exact Option.some.inj this
+          subst hcc
+          have hoth := cloneCell_others hinv.agree0 hc0 hsh hclone
+          by_cases hjn : j = ni'
+          · exact Or.inl (by omega)
+          · exact Or.inr (hoth j hj1 hj2 hjn)
+        intro sh hsh
+        obtain ⟨c0, hc0⟩ := shape_cell hsh
+        have hcc : c = c0 := by
+          have := hinv.agree0 index c0 hc0
+          rw [get_ok hgc] at this
+          exact Option.some.inj this
+        subst hcc
+        obtain ⟨sh', g1, g2, g3, g4⟩ := cloneCell_shape_all hinv.agree0 hc0 hsh (fun n k hck => hnl index n k (by rw [hc0, hck])) hclone
+        refine ⟨sh', g1, g2, g3, AllRel.imp (fun a b ⟨st, hgr, hab⟩ => ?_) g4⟩
+        rw [← hgr.start] at hab
+        have hl := lookup_link hab
+        exact Link.mono (Nat.le_refl _) (hext.frame.1.trans hgr.ret.symm)
+          (fun j hj1 hj2 => (hkeep j (by have := hinv.hiLe; omega)).trans
+            (hgr.keep j (by have := hinv.hiLe; omega)).symm) hl
+    obtain ⟨hext, hkeep, hgood, hfresh2, hnews⟩ := key
+    obtain ⟨hilt, hcells2, hframe2⟩ := setCell_cells hset
+    have hi_lt : top + k < hi := by have := hinv.bound; omega
+    have hcur2i : cur2.cells[top + k]? = some (.cloneItem index) := by
+      rw [hkeep _ (by have := hinv.hiLe; omega)]; exact hci
+    -- only the `CloneItem` at `top + k` changes between `cur2` and `s2`
+    have hag2 : AgreeNC cur2.cells s2.cells := by
+      intro j d hj hne
+      rw [hcells2]
+      by_cases hji : j = top + k
+      · subst hji
+        rw [hcur2i] at hj
+        exact absurd (Option.some.inj hj).symm (hne index)
+      · simp [Ne.symm hji, hj]
+    have hother : ∀ j, j ≠ top + k → s2.cells[j]? = cur2.cells[j]? := by
+      intro j hj
+      rw [hcells2]
+      simp [Ne.symm hj]
+    have hinv2 : CInv off s0 s1 top hi k s2 := by
+      refine ⟨?_, ?_, ?_, ?_, by omega, ?_, ?_, ?_⟩
+      rotate_right
+      · -- everything behind the index list stays well formed
+        intro hpre j hj1 hj2
+        have hsz2 : s2.cells.size = cur2.cells.size := by rw [hcells2]; simp
+        have hagc : AgreeNC cur.cells cur2.cells := by
+          intro j' d hj' _
+          have hjl : j' < cur.cells.size := by
+            rcases Nat.lt_or_ge j' cur.cells.size with h | h
+            · exact h
+            · rw [Array.getElem?_eq_none h] at hj'; cases hj'
+          rw [hkeep j' hjl]; exact hj'
+        by_cases hold : j < cur.cells.size
+        · have f1 := (hinv.fresh hpre j hj1 hold).mono (hkeep j hold) hext.frame.1 hagc
+          exact f1.mono (hother j (by omega)) hframe2.1 hag2
+        · exact (hfresh2 hpre j (by omega) (by omega)).mono (hother j (by omega)) hframe2.1 hag2
+      · intro j d hj
+        have hjlt : j < s0.size := by
+          rcases Nat.lt_or_ge j s0.size with h | h
+          · exact h
+          · rw [Array.getElem?_eq_none h] at hj; cases hj
+        have h1 := hinv.agree0 j d hj
+        have hjc : j < cur.cells.size := by
+          rcases Nat.lt_or_ge j cur.cells.size with h | h
+          · exact h
+          · rw [Array.getElem?_eq_none h] at h1; cases h1
+        rw [hother j (by omega), hkeep j hjc]; exact h1
+      · rw [hframe2.2.1, hext.frame.2.1]; exact hinv.start
+      · rw [hframe2.1, hext.frame.1]; exact hinv.ret
+      · rw [hcells2]; simp; exact Nat.le_trans hinv.hiLe hext.mono
+      · intro j hj1 hj2
+        rw [hother j (by omega), hkeep j (by have := hinv.hiLe; omega)]
+        exact hinv.pending j (by omega) hj2
+      · intro j hj1 hj2
+        have hcellsJ : ∀ j', top + k + 1 ≤ j' → j' < hi → s2.cells[j']? = cur2.cells[j']? :=
+          fun j' h1 _ => hother j' (by omega)
+        by_cases hji : j = top + k
+        · subst hji
+          refine ⟨index, nw, ?_, ?_, Good.mono (by omega) hframe2.1 hcellsJ hag2 hgood⟩
+          · rw [hcells2]
+            simp [hilt]
+          · rw [← hinv.pending (top + k) (by omega) hi_lt]; exact hci
+        · obtain ⟨o, n, hcell, hs1, hg⟩ := hinv.done j (by omega) hj2
+          have hk : top + (k + 1) = top + k + 1 := by omega
+          rw [hk] at hg
+          refine ⟨o, n, ?_, hs1, ?_⟩
+          · rw [hother j hji, hkeep j (by have := hinv.hiLe; omega)]; exact hcell
+          · have hg2 : Good off s0 cur2 (top + k + 1) hi o n :=
+              Good.mono (Nat.le_refl _) hext.frame.1
+                (fun j' h1 h2 => hkeep j' (by have := hinv.hiLe; omega))
+                (fun j' d hj' _ => by
+                  have : j' < cur.cells.size := by
+                    rcases Nat.lt_or_ge j' cur.cells.size with h | h
+                    · exact h
+                    · rw [Array.getElem?_eq_none h] at hj'; cases hj'
+                  rw [hkeep j' this]; exact hj') hg
+            exact Good.mono (by omega) hframe2.1 hcellsJ hag2 hg2
+    exact ⟨index, cur2, nw, s2, ⟨hci, hext, hkeep, hgood, hnews, hother, by rw [hcells2]; simp, hframe2, hag2⟩, hinv2, hrest⟩
+  · simp at h2
+
 theorem cloneLoop_step_inv {off : Nat} {s0 : Array Cell} {s1 : Store} {top hi : Nat} (htop : s0.size ≤ top)
     (hnl : ListsWF s0) (hcase : off = 0 ∨ s1.retention ≤ hi) :
     ∀ (k : Nat) (cur s' : Store), CInv off s0 s1 top hi k cur →
@@ -142,224 +400,8 @@ theorem cloneLoop_step_inv {off : Nat} {s0 : Array Cell} {s1 : Store} {top hi : 
     simp only [Store.cloneLoop, Outcome.ok.injEq] at h
     subst h; exact hinv
   | k + 1, cur, s', hinv, h => by
-    simp only [Store.cloneLoop, bind_eq_ok] at h
-    obtain ⟨ci, hgi, h2⟩ := h
-    have hci := get_ok hgi
-    split at h2
-    · rename_i index
-      simp only [bind_eq_ok] at h2
-      obtain ⟨existing, hex, ⟨cur2, nw⟩, h3, s2, hset, hrest⟩ := h2
-      have hstart : cur.start + (top + k) + 1 = cur.start + (top + k + 1) := by omega
-      rw [hstart, ← hinv.start] at hex
-      rw [hstart, ← hinv.start] at h3
-      -- the store after the optional clone, and what the new map entry satisfies
-      have key : Ext (top + k + 1) cur cur2 ∧ (∀ j, j < cur.cells.size → cur2.cells[j]? = cur.cells[j]?) ∧
-          Good off s0 cur2 (top + k + 1) hi index nw ∧
-          (FreshPre s0 s1 top hi → ∀ j, cur.cells.size ≤ j → j < cur2.cells.size → FreshOK off cur2 hi j) := by
-        cases existing with
-        | some j' =>
-          simp only [pure, Outcome.ok.injEq, Prod.mk.injEq] at h3
-          obtain ⟨hc2, hni⟩ := h3
-          subst hc2; subst hni
-          refine ⟨Ext.refl _ _, fun _ _ => rfl, ?_, fun _ j h1 h2 => by omega⟩
-          rcases lookupOpt_link hex with ⟨h1, h1'⟩ | ⟨j, h1, h2, hcell⟩
-          · exact Or.inl ⟨h1, h1'⟩
-          · obtain ⟨o, n, hcell', _, hgood⟩ := hinv.done j (by omega) h2
-            rw [hcell] at hcell'
-            simp only [Option.some.injEq, Cell.cloneIndexMap.injEq] at hcell'
-            obtain ⟨ho, hn⟩ := hcell'
-            subst ho; subst hn
-            have hk : top + (k + 1) = top + k + 1 := by omega
-            rw [hk] at hgood
-            exact hgood
-        | none =>
-          simp only [bind_eq_ok] at h3
-          obtain ⟨c, hgc, ⟨cur2', ni'⟩, hclone, h4⟩ := h3
-          have hge := cloneCell_index_ge hclone
-          have hext := cloneCell_ext (top + k + 1) hclone
-          have hni : cur2' = cur2 ∧ nw + off = ni' := by
-            split at h4
-            · rename_i hlt
-              simp only [pure, Outcome.ok.injEq, Prod.mk.injEq] at h4
-              refine ⟨h4.1, ?_⟩
-              rcases hcase with h0 | hr
-              · omega
-              · have e1 := hext.frame.1
-                have e2 := hinv.ret
-                have e3 := hinv.hiLe
-                exfalso
-                have hlt' : ni' < cur2'.retention := hlt
-                omega
-            · split at h4
-              · simp at h4
-              · simp only [pure, Outcome.ok.injEq, Prod.mk.injEq] at h4
-                refine ⟨h4.1, ?_⟩
-                omega
-          obtain ⟨hc2, hni⟩ := hni
-          subst hc2
-          have hkeep : ∀ j, j < cur.cells.size → cur2'.cells[j]? = cur.cells[j]? :=
-            fun j hj => (cloneCell_ext (j + 1) hclone).keep j (by omega) hj
-          have hagc : AgreeNC cur.cells cur2'.cells := by
-            intro j d hj _
-            have hjl : j < cur.cells.size := by
-              rcases Nat.lt_or_ge j cur.cells.size with h | h
-              · exact h
-              · rw [Array.getElem?_eq_none h] at hj; cases hj
-            rw [hkeep j hjl]; exact hj
-          refine ⟨hext, hkeep, Or.inr ⟨ni', by have := hinv.hiLe; omega, hni, ?_⟩, ?_⟩
-          rotate_left
-          · -- the cells this step appends
-            intro ⟨hkn, hitems⟩ j hj1 hj2
-            have hi_lt' : top + k < hi := by have := hinv.bound; omega
-            obtain ⟨sh, hsh⟩ := hitems (top + k) (by omega) hi_lt' index (by
-              rw [← hinv.pending (top + k) (by omega) hi_lt']; exact hci)
-            obtain ⟨c0, hc0⟩ := shape_cell hsh
-            have hcc : c = c0 := by
-              have := hinv.agree0 index c0 hc0
-              rw [get_ok hgc] at this
-              exact Option.some.inj this
-            subst hcc
-            obtain ⟨sh', g1, g2, g3, g4⟩ := cloneCell_shape_all hinv.agree0 hc0 hsh
-              (fun n k hck => hnl index n k (by rw [hc0, hck])) hclone
-            have hoth := cloneCell_others hinv.agree0 hc0 hsh hclone
-            by_cases hjn : j = ni'
-            · subst hjn
-              obtain ⟨c'', hc''⟩ := shape_cell g1
-              refine ⟨c'', hc'', ?_, Or.inr ⟨sh', g1, ?_⟩⟩
-              · intro n k' hck
-                subst hck
-                have hl1 : sh'.label = .list n k' := by
-                  unfold shape at g1; rw [hc''] at g1
-                  simp only at g1
-                  split at g1
-                  · simp only [Option.some.injEq] at g1; rw [← g1]
-                  · simp at g1
-                have := label_list hsh (by rw [← g2]; exact hl1)
-                exact hnl index n k' this
-              · intro k' hk'
-                obtain ⟨x, hx, st, hgr, hab⟩ := AllRel.right_mem g4 k' hk'
-                obtain ⟨shx, hshx⟩ := hkn index sh hsh x hx
-                have hxcur : ∃ sh2, shape cur2'.cells x = some sh2 :=
-                  ⟨shx, shape_agree hagc (shape_agree (agreeNC_of_all hinv.agree0) hshx)⟩
-                rw [← hgr.start] at hab
-                have hl := lookup_link hab
-                rcases hl with ⟨h1, h2⟩ | ⟨j', h1, h2, h3⟩
-                · subst h1
-                  exact Or.inl ⟨by rw [hext.frame.1, ← hgr.ret]; exact h2, hxcur⟩
-                · rw [hgr.keep j' (by have := hinv.hiLe; omega)] at h3
-                  obtain ⟨o, n, hcell', _, hgood⟩ := hinv.done j' (by omega) h2
-                  rw [h3] at hcell'
-                  simp only [Option.some.injEq, Cell.cloneIndexMap.injEq] at hcell'
-                  obtain ⟨ho, hn⟩ := hcell'
-                  subst ho; subst hn
-                  rcases hgood with ⟨e1, e2⟩ | ⟨ni2, e1, e2, e3⟩
-                  · subst e1
-                    exact Or.inl ⟨by rw [hext.frame.1]; exact e2, hxcur⟩
-                  · obtain ⟨sh2, f1, _, _, _⟩ := e3 shx hshx
-                    have hb := shape_bound f1
-                    exact Or.inr ⟨by omega, by omega, sh2, by rw [e2]; exact shape_agree hagc f1⟩
-            · obtain ⟨d, hd, hside⟩ := hoth j hj1 hj2 hjn
-              refine ⟨d, hd, ?_, ?_⟩
-              · intro n k' hdk
-                subst hdk
-                rcases hside with h | h
-                · simp [neverNode] at h
-                · simp [isLeafCell, soloShape] at h
-              · rcases hside with h | h
-                · exact Or.inl h
-                · exact Or.inr ⟨_, shape_of_solo hd h, fun k' hk' => by simp at hk'⟩
-          intro sh hsh
-          obtain ⟨c0, hc0⟩ := shape_cell hsh
-          have hcc : c = c0 := by
-            have := hinv.agree0 index c0 hc0
-            rw [get_ok hgc] at this
-            exact Option.some.inj this
-          subst hcc
-          obtain ⟨sh', g1, g2, g3, g4⟩ := cloneCell_shape_all hinv.agree0 hc0 hsh (fun n k hck => hnl index n k (by rw [hc0, hck])) hclone
-          refine ⟨sh', g1, g2, g3, AllRel.imp (fun a b ⟨st, hgr, hab⟩ => ?_) g4⟩
-          rw [← hgr.start] at hab
-          have hl := lookup_link hab
-          exact Link.mono (Nat.le_refl _) (hext.frame.1.trans hgr.ret.symm)
-            (fun j hj1 hj2 => (hkeep j (by have := hinv.hiLe; omega)).trans
-              (hgr.keep j (by have := hinv.hiLe; omega)).symm) hl
-      obtain ⟨hext, hkeep, hgood, hfresh2⟩ := key
-      obtain ⟨hilt, hcells2, hframe2⟩ := setCell_cells hset
-      have hi_lt : top + k < hi := by have := hinv.bound; omega
-      have hcur2i : cur2.cells[top + k]? = some (.cloneItem index) := by
-        rw [hkeep _ (by have := hinv.hiLe; omega)]; exact hci
-      -- only the `CloneItem` at `top + k` changes between `cur2` and `s2`
-      have hag2 : AgreeNC cur2.cells s2.cells := by
-        intro j d hj hne
-        rw [hcells2]
-        by_cases hji : j = top + k
-        · subst hji
-          rw [hcur2i] at hj
-          exact absurd (Option.some.inj hj).symm (hne index)
-        · simp [Ne.symm hji, hj]
-      have hother : ∀ j, j ≠ top + k → s2.cells[j]? = cur2.cells[j]? := by
-        intro j hj
-        rw [hcells2]
-        simp [Ne.symm hj]
-      have hinv2 : CInv off s0 s1 top hi k s2 := by
-        refine ⟨?_, ?_, ?_, ?_, by omega, ?_, ?_, ?_⟩
-        rotate_right
-        · -- everything behind the index list stays well formed
-          intro hpre j hj1 hj2
-          have hsz2 : s2.cells.size = cur2.cells.size := by rw [hcells2]; simp
-          have hagc : AgreeNC cur.cells cur2.cells := by
-            intro j' d hj' _
-            have hjl : j' < cur.cells.size := by
-              rcases Nat.lt_or_ge j' cur.cells.size with h | h
-              · exact h
-              · rw [Array.getElem?_eq_none h] at hj'; cases hj'
-            rw [hkeep j' hjl]; exact hj'
-          by_cases hold : j < cur.cells.size
-          · have f1 := (hinv.fresh hpre j hj1 hold).mono (hkeep j hold) hext.frame.1 hagc
-            exact f1.mono (hother j (by omega)) hframe2.1 hag2
-          · exact (hfresh2 hpre j (by omega) (by omega)).mono (hother j (by omega)) hframe2.1 hag2
-        · intro j d hj
-          have hjlt : j < s0.size := by
-            rcases Nat.lt_or_ge j s0.size with h | h
-            · exact h
-            · rw [Array.getElem?_eq_none h] at hj; cases hj
-          have h1 := hinv.agree0 j d hj
-          have hjc : j < cur.cells.size := by
-            rcases Nat.lt_or_ge j cur.cells.size with h | h
-            · exact h
-            · rw [Array.getElem?_eq_none h] at h1; cases h1
-          rw [hother j (by omega), hkeep j hjc]; exact h1
-        · rw [hframe2.2.1, hext.frame.2.1]; exact hinv.start
-        · rw [hframe2.1, hext.frame.1]; exact hinv.ret
-        · rw [hcells2]; simp; exact Nat.le_trans hinv.hiLe hext.mono
-        · intro j hj1 hj2
-          rw [hother j (by omega), hkeep j (by have := hinv.hiLe; omega)]
-          exact hinv.pending j (by omega) hj2
-        · intro j hj1 hj2
-          have hcellsJ : ∀ j', top + k + 1 ≤ j' → j' < hi → s2.cells[j']? = cur2.cells[j']? :=
-            fun j' h1 _ => hother j' (by omega)
-          by_cases hji : j = top + k
-          · subst hji
-            refine ⟨index, nw, ?_, ?_, Good.mono (by omega) hframe2.1 hcellsJ hag2 hgood⟩
-            · rw [hcells2]
-              simp [hilt]
-            · rw [← hinv.pending (top + k) (by omega) hi_lt]; exact hci
-          · obtain ⟨o, n, hcell, hs1, hg⟩ := hinv.done j (by omega) hj2
-            have hk : top + (k + 1) = top + k + 1 := by omega
-            rw [hk] at hg
-            refine ⟨o, n, ?_, hs1, ?_⟩
-            · rw [hother j hji, hkeep j (by have := hinv.hiLe; omega)]; exact hcell
-            · have hg2 : Good off s0 cur2 (top + k + 1) hi o n :=
-                Good.mono (Nat.le_refl _) hext.frame.1
-                  (fun j' h1 h2 => hkeep j' (by have := hinv.hiLe; omega))
-                  (fun j' d hj' _ => by
-                    have : j' < cur.cells.size := by
-                      rcases Nat.lt_or_ge j' cur.cells.size with h | h
-                      · exact h
-                      · rw [Array.getElem?_eq_none h] at hj'; cases hj'
-                    rw [hkeep j' this]; exact hj') hg
-              exact Good.mono (by omega) hframe2.1 hcellsJ hag2 hg2
-      exact cloneLoop_step_inv htop hnl hcase k s2 s' hinv2 hrest
-    · simp at h2
+    obtain ⟨_, _, _, s2, _, hinv2, hrest⟩ := cloneLoop_one htop hnl hcase k cur s' hinv h
+    exact cloneLoop_step_inv htop hnl hcase k s2 s' hinv2 hrest
 
 
 theorem AllRel.imp_mem {α β} {R S : α → β → Prop} : ∀ {l : List α} {l' : List β},
